@@ -151,7 +151,7 @@ func (P) ClassifyMismatch(line, goOut, leanOut string) string {
 		return ""
 	}
 	b := unhex(f[2])
-	if len(b) < 8 || int(b[1])+2 >= len(b) {
+	if len(b) < 8 || len(b) > 72 || int(b[1])+2 >= len(b) { // 72: the documented strict maximum (literal on purpose)
 		return ""
 	}
 	cut := b[:int(b[1])+2]
